@@ -274,8 +274,13 @@ def _line_body_of_concat(interp, whole, parts):
     # (pk ends in '\n': both sides are whole[:-1]; it does not: neither does whole, both sides are whole) --
     # ONE equation without a case distinction on the ending, which is what the string solvers get lost in
     guard = z3.And(whole == z3.Concat(*parts), z3.Length(last) > 0)
-    rhs = z3.Concat(*(list(parts[:-1]) + [_body_fn()(last)]))
+    pieces = list(parts[:-1]) + [_body_fn()(last)]
+    rhs = z3.Concat(*pieces)
     st._add(z3.Implies(guard, _body_fn()(whole) == rhs))
+    # a ONE-character string occurs in a concatenation iff it occurs in one of the pieces (valid for all strings):
+    # stated for '\n' and the body of the concatenation, it makes "no new-line in the body of a + b" a matter of
+    # propositional reasoning (is_line of a pending line joined with the first line of the next part)
+    st._add(z3.Contains(rhs, _nl()) == z3.Or(*[z3.Contains(p, _nl()) for p in pieces]))
     for ax in line_body_axioms(last):
         st._add(ax)
 
